@@ -236,7 +236,7 @@ func (g *gen) kindValue() (interface{}, prim) {
 		v := r.Intn(2) == 0
 		return v, pBool(v)
 	default:
-		v := Pick(r, []string{"", "0", " ", "abc", "12", "NaN", " 0x10 ", "-0", "Infinity"})
+		v := Pick(r, []string{"", "0", " ", "abc", "12", "NaN", " 0x10 ", "-0", "Infinity", "+Infinity", "-Infinity", " Infinity ", "\t-Infinity\n", "+NaN", "nan"})
 		return v, pStr(v)
 	}
 }
